@@ -102,9 +102,12 @@ def run_many(scenarios, workers=14, timeout=300):
     todo = [(k, p) for k, p in dict(zip(keys, scenarios)).items() if k not in _TRACE_CACHE]
     with concurrent.futures.ThreadPoolExecutor(max_workers=workers) as ex:
         texts = list(ex.map(lambda kp: run_one(kp[1], timeout), todo))
-    for (k, p), t in zip(todo, texts):
-        _TRACE_CACHE[k] = Trace(p, t)
-    return [_TRACE_CACHE[k] for k in keys]
+    fresh = {k: Trace(p, t) for (k, p), t in zip(todo, texts)}
+    out = [fresh[k] if k in fresh else _TRACE_CACHE[k] for k in keys]
+    for k, tr in fresh.items():
+        if len(_TRACE_CACHE) < 256:      # bounded: the thorough tier runs thousands of scenarios
+            _TRACE_CACHE[k] = tr
+    return out
 
 
 # ---------------------------------------------------------------------------------------
